@@ -1,10 +1,12 @@
 """Oracle for C13 (and helpers shared with C14), written from the property text only and run against the REAL
 `parse_model` / `build_model` of the fsic under test.  Nothing here looks at the Lean model."""
-import builtins, contextlib, keyword, re, signal, traceback
+import builtins, contextlib, keyword, linecache, os, re, shutil, signal, sys, tempfile, traceback, zlib
 
 import fsic
 from fsic import parser as P
 from fsic.exceptions import ParserError, SymbolError
+
+import side_effects as SE
 
 OWN = (ParserError, SymbolError, IndentationError)
 
@@ -69,6 +71,96 @@ def canary(hits):
         for n in ('CANARY', 'self'):
             if hasattr(P, n):
                 delattr(P, n)
+
+
+# ---- side effects -------------------------------------------------------------------------------------------------
+
+_WARM = False
+_SANDBOX = None
+WARM_UP = ['Y = X', '', 'Y = (X +\n Z[-1])  # c\n```\npass\n```', 'Y = {0}', ')', '  Y = X', 'Y = X +', 'Y = {a} + <e>',
+           'Y = 1 is 1', 'Y = X\nY = Z', 'Y = é', 'Y = "\u00e9"']
+
+
+def fsic_modules():
+    return [m for n, m in sorted(sys.modules.items()) if (n == 'fsic' or n.startswith('fsic.')) and m is not None]
+
+
+def warm_up():
+    """Principled rule for lazily created state: everything the library creates on its FIRST use (lazy imports,
+    regex caches, line cache of its own sources) is created here, once per process; from then on the snapshots must
+    not change."""
+    global _WARM
+    if _WARM:
+        return
+    _WARM = True
+    import warnings
+    with warnings.catch_warnings():
+        warnings.simplefilter('ignore')
+        for text in WARM_UP:
+            for cs in (True, False):
+                try:
+                    syms = P.parse_model(text, check_syntax=cs)
+                    P.build_model_definition(syms)
+                    P.build_model_definition(syms, with_type_hints=False)
+                    P.build_model(syms)(range(3))
+                except Exception as e:  # noqa: BLE001
+                    [f.line for f in traceback.extract_tb(e.__traceback__)]
+    for m in fsic_modules():
+        f = getattr(m, '__file__', None)
+        if f:
+            linecache.getlines(f)
+    linecache.getlines(__file__)
+    full_snapshot()   # the snapshot itself touches lazily imported parts of numpy.random etc.
+
+
+@contextlib.contextmanager
+def sandbox():
+    """A private, empty working directory and temp directory: any file the parser or builder leaves behind shows."""
+    global _SANDBOX
+    old_cwd, old_tmp, old_env = os.getcwd(), tempfile.tempdir, os.environ.get('TMPDIR')
+    d = tempfile.mkdtemp(prefix='fsic-sbx-')
+    os.mkdir(os.path.join(d, 'tmp'))
+    os.chdir(d)
+    tempfile.tempdir = os.path.join(d, 'tmp')
+    os.environ['TMPDIR'] = tempfile.tempdir
+    _SANDBOX = d
+    try:
+        yield d
+    finally:
+        _SANDBOX = None
+        os.chdir(old_cwd)
+        tempfile.tempdir = old_tmp
+        if old_env is None:
+            os.environ.pop('TMPDIR', None)
+        else:
+            os.environ['TMPDIR'] = old_env
+        shutil.rmtree(d, ignore_errors=True)
+
+
+def full_snapshot():
+    return SE.snapshot(fsic_modules(), _SANDBOX)
+
+
+def watched(call, violate, what, full):
+    """Run `call()` between two snapshots of the process-global state; every key that differs is a violation
+    `side-effect:<key>`.  full=False: the cheap subset (the batch-level full comparison still runs)."""
+    if full:
+        before = full_snapshot()
+    else:
+        before = SE.quick_snapshot(P)
+    try:
+        return call()
+    finally:
+        if full:
+            after = full_snapshot()
+            for k in SE.diff(before, after):
+                violate('side-effect:' + k, f'{what} changed {k}: {SE.describe(k, before, after)}')
+        else:
+            after = SE.quick_snapshot(P)
+            if after != before:
+                for k, a, b in zip(SE.QUICK_KEYS, before, after):
+                    if a != b:
+                        violate('side-effect:' + k, f'{what} changed {k}: {str(a)[:60]} -> {str(b)[:60]}')
 
 
 def logical_statements(script):
@@ -160,8 +252,15 @@ def _rejection_key(script):
     return 'exec-at-parse-rejects-valid'
 
 
-def check(script, violate, dist=None, expect_accept=False, timeout=20):
-    """Run the property on one input.  `violate(key, what)` is called for every breach.  Returns the outcome tag."""
+# statements Python allows at module level only (the syntax check compiles a verbatim block on its own, the built
+# class puts it inside a method)
+_MODULE_LEVEL_ONLY = re.compile(r'from\s+__future__\s+import|import\s*\*')
+
+
+def check(script, violate, dist=None, expect_accept=False, timeout=20, full=False):
+    """Run the property on one input.  `violate(key, what)` is called for every breach.  Returns the outcome tag.
+    full=True: full process-state snapshots around every call (otherwise the cheap subset)."""
+    warm_up()
     hits = []
     names_before = set(vars(P))
     signal.signal(signal.SIGALRM, _on_alarm)
@@ -171,7 +270,7 @@ def check(script, violate, dist=None, expect_accept=False, timeout=20):
     try:
         with canary(hits):
             try:
-                symbols = P.parse_model(script)
+                symbols = watched(lambda: P.parse_model(script), violate, 'parse_model(check_syntax=True)', full)
                 tag = 'accepted'
             except OWN as e:
                 tag = 'own:' + type(e).__name__
@@ -198,25 +297,41 @@ def check(script, violate, dist=None, expect_accept=False, timeout=20):
         violate('exec-at-parse', f'parse_model left new names in fsic.parser: {sorted(leaked)[:4]}')
     if expect_accept and tag != 'accepted' and not tag.startswith('internal'):
         violate(_rejection_key(script), f'a well-formed script was rejected with {tag}')
+    if full or zlib.crc32(script.encode('utf-8', 'replace')) % 8 == 0:
+        # the same without the syntax check: same side-effect discipline, and never fewer scripts accepted
+        try:
+            with canary(hits):
+                unchecked = watched(lambda: P.parse_model(script, check_syntax=False), violate,
+                                    'parse_model(check_syntax=False)', full)
+        except Exception as e:  # noqa: BLE001
+            unchecked = None
+            if symbols is not None:
+                violate('unchecked-parse-rejects', f'accepted with the syntax check but {type(e).__name__} without it')
+        if hits:
+            violate('exec-at-parse', 'parse_model(check_syntax=False) executed model statements')
     if symbols is None:
         return tag
     # ---- accepted with syntax checking on: build_model succeeds and the class can be instantiated ----------------
     hits2 = []
     try:
         with canary(hits2):
-            Model = P.build_model(symbols)
+            Model = watched(lambda: P.build_model(symbols), violate, 'build_model', full)
             n = int(getattr(Model, 'LAGS', 0)) + int(getattr(Model, 'LEADS', 0)) + 3
             Model(range(min(n, 5000)))
     except Exception as e:  # noqa: BLE001
-        violate('build-fails:' + type(e).__name__,
-                f'parse_model accepted the script but build_model / instantiation raised {type(e).__name__}: {str(e)[:120]}')
+        key = 'build-fails:' + type(e).__name__
+        if _MODULE_LEVEL_ONLY.search(script) and type(e).__name__ == 'BuildError':
+            key = 'build-fails:module-level-only-statement'
+        violate(key, f'parse_model accepted the script but build_model / instantiation raised {type(e).__name__}: '
+                f'{str(e)[:120]}')
         return 'accepted-build-fails'
     if hits2:
         violate('exec-at-build', f'build_model executed model statements (canary: {sorted(set(hits2))[:4]})')
     # ---- no non-blank, non-comment statement is silently discarded -----------------------------------------------
     converted = []
     try:
-        P.build_model_definition(symbols, converter=lambda sym: (converted.append(sym), 'pass')[1])
+        watched(lambda: P.build_model_definition(symbols, converter=lambda sym: (converted.append(sym), 'pass')[1]),
+                violate, 'build_model_definition', full)
     except Exception as e:  # noqa: BLE001
         violate('build-fails:' + type(e).__name__, 'build_model_definition with a counting converter raised')
         return 'accepted-build-fails'
